@@ -1222,7 +1222,9 @@ impl<'a> TLVSequenceTLVIter<'a> {
 
             if control.is_container_start() {
                 self.nesting += 1;
-            } else if control.is_container_end() {
+            } else if control.is_container_end() && self.nesting > 0 {
+                // At nesting 0 this is the end marker of the container whose elements
+                // are being iterated (the sequence starts inside it); iteration ends there
                 self.nesting -= 1;
             }
         }
